@@ -351,7 +351,7 @@ PROPS["C05"] = {
                   "structure-aware and random mutations under a panic hook and a counting allocator — that part is a test, labelled as such.",
     "level_note": "Proof covers the legacy decoders only; BLS point validation is an oracle of the model; nested payloads that take the CBOR branch "
                   "are declared outside the model (counted in evidence). The unbounded recursion of MKMapProof::from_bytes (bincode, nested proofs) "
-                  "is a known finding demonstrated in a child process every run.",
+                  "is repaired (depth limit); the 200000-fold nested input is replayed in a child process every run.",
     "harness": [("harness", "c05")],
     "anchors": ["mithril-stm/src/codec.rs", "mithril-stm/src/proof_system/concatenation/proof.rs", "mithril-stm/src/protocol/aggregate_signature/signature.rs",
                 "mithril-stm/src/protocol/single_signature/signature.rs", "mithril-stm/src/protocol/single_signature/signature_registered_party.rs",
